@@ -85,6 +85,8 @@ impl SegmentIndexWriter {
                 })
                 .map_err(|_| IggyError::CannotSaveIndexToSegment)?;
         }
+        #[cfg(iggy_verif)]
+        crate::verif::fs_event("index_append", &self.file_path);
         if self.fsync {
             let _ = self.fsync().await;
         }
